@@ -253,8 +253,9 @@ def build(spec):
 
     nsites = max(1, len(sites))
     # star-one
-    alleles[f"{name}*1.001"] = {"mutations": []}
-    truth["1.001"] = {"sites": [], "sv": None}
+    first = "1.001" if not spec.get("unpadded") else f"1.{1 + spec['unpadded']}"
+    alleles[f"{name}*{first}"] = {"mutations": []}
+    truth[first] = {"sites": [], "sv": None}
     major_of = {(None, ()): 1}
     minor_count = {1: 1}
     next_major = [2]
@@ -270,7 +271,14 @@ def build(spec):
             return rnm not in sv[1]
         return False
 
+    ncoll = spec.get("collide", 0)
+    fsites = [i for i, x in enumerate(sites) if x[2]]
     for ad in spec["alleles"]:
+        if ncoll and ad.get("sv") is None:
+            # distinct core sets where possible, so that the groups really differ
+            extra_core = [fsites[(ncoll + k) % len(fsites)] for k in range(1 + ncoll % 2)] if fsites else []
+            ad = dict(ad, force_major=2, label="Z", sites=list(ad["sites"]) + extra_core)
+            ncoll -= 1
         sv = ad.get("sv")
         if sv is not None:
             sv = tuple(sv) if not isinstance(sv, str) else (sv,)
@@ -304,7 +312,11 @@ def build(spec):
             next_major[0] += 1
             minor_count[major_of[key]] = 0
         mj = major_of[key]
-        if ad.get("as") is not None and next_major[0] > 2:
+        if ad.get("force_major") is not None:
+            # stress mode: several different groups filed under one number AND one label (n-way name collision)
+            mj = ad["force_major"]
+            minor_count.setdefault(mj, 0)
+        elif ad.get("as") is not None and next_major[0] > 2:
             # stress mode: file the allele under another group's number (name-prefix collision)
             mj = 1 + ad["as"] % (next_major[0] - 1)
             minor_count.setdefault(mj, 0)
@@ -313,7 +325,11 @@ def build(spec):
         if dup and not ad.get("dup"):
             continue
         minor_count[mj] += 1
-        nm = f"{mj}.{minor_count[mj]:03d}"
+        if spec.get("unpadded"):
+            # minor numbers without zero padding, starting near 9 -> 10 (natural order differs from string order)
+            nm = f"{mj}.{minor_count[mj] + spec['unpadded']}"
+        else:
+            nm = f"{mj}.{minor_count[mj]:03d}"
         muts = [entry(i) for i in idx]
         if sv is not None:
             if sv[0] == "del":
@@ -439,6 +455,11 @@ def db_specs(draw, kinds=KINDS_READS, max_sites=10, max_alleles=9, sv=True, pseu
         spec["random_sites"] = draw(st.lists(st.integers(0, ns - 1), min_size=1, max_size=3))
     elif draw(st.integers(0, 3)) == 0:
         spec["random_sites"] = draw(st.lists(st.integers(0, ns - 1), min_size=1, max_size=2))
+    if stress:
+        if draw(st.integers(0, 1)) == 0:
+            spec["collide"] = draw(st.integers(4, 6))
+        if draw(st.integers(0, 2)) == 0:
+            spec["unpadded"] = draw(st.integers(6, 8))
     if draw(st.integers(0, 2)) == 0:
         spec["tandems"] = draw(st.lists(st.tuples(st.integers(0, 6), st.integers(0, 6)).map(list), min_size=1, max_size=2))
     return spec
